@@ -28,6 +28,14 @@ RPMS_VERSIONS = ["0.3", "1.0", "1.1"]
 TREEINFO_VERSIONS = ["0.0", "0.3", "1.0", "1.1"]
 
 
+def exact_int(stamp):
+    """The integer a timestamp text denotes: exactly for an integer literal, else the integer part of the number."""
+    try:
+        return int(stamp)
+    except (TypeError, ValueError):
+        return int(float(stamp))
+
+
 def vt(version):
     return tuple(int(x) for x in version.split("."))
 
@@ -427,7 +435,7 @@ def treeinfo_0_0(D, rng):
     paths["identity"] = ident
     E = {"release": {"name": name, "short": "", "version": version, "is_layered": False},
          "base_product": {"name": None, "short": None, "version": None},
-         "tree": {"arch": arch, "build_timestamp": int(float(stamp)), "platforms": sorted(platforms)},
+         "tree": {"arch": arch, "build_timestamp": exact_int(stamp), "platforms": sorted(platforms)},
          "variants": [{"id": uid.split("-")[-1], "uid": uid, "name": uid.split("-")[-1], "type": "variant", "parent": None,
                        "paths": paths, "children": []}],
          "images": images,
